@@ -11,7 +11,7 @@ PROPERTY = 'C04'
 LEAN_MODULES = ['YatimlModel.Props.C04']
 THEOREMS = ['YatimlModel.C04.' + t for t in [
     'loaderTable_core', 'C04_any_processed_core', 'C04_any_plain', 'C04_stripped_plain',
-    'C04_python_tags_fail', 'byTag_registered']] + ['YatimlModel.construct_quiet']
+    'C04_python_tags_fail', 'byTag_registered', 'C04_calls_within_reach', 'C04_any_reaches_nothing']] + ['YatimlModel.construct_quiet']
 RULE = ('class models with Any / untyped / _yatiml_extra positions x valid and invalid documents with '
         'arbitrary tags injected at one to three nodes (registered class names, unknown names, '
         '!!python/object, !!python/object/apply, !!python/name, !!python/module, core tags); on the real '
@@ -91,6 +91,11 @@ def explore(ctx):
                     ctx.count('rebuild_error')
             cases.append(c)
             LC.record_distribution(ctx, c)
+            from props import c01 as _c01
+            bad = _c01.env_wf(c.model)
+            ctx.count('envwf_checked')
+            if bad:
+                ctx.disagree('the class table does not satisfy the hypotheses of C04_calls_within_reach: ' + bad, L.describe(c))
             by = {x['name']: x for x in c.spec}
             ctx.case((c.text, repr(c.doc_type), repr([x['name'] for x in c.spec])), nontrivial=c.desc is not None)
             if len(ctx.samples) < 3:
